@@ -141,6 +141,9 @@ pub enum Stmt {
     ExtDecomp(u16),
     /// recompose_base_coeffs_to_ext(D base-valued nodes chosen by these indices)
     ExtRecomp(Vec<u16>),
+    /// A well-formed Horner chain: acc_0 = 0, acc_{k+1} = horner(acc_k, alpha, z_k, x_k),
+    /// followed by one ordinary op on the result (so that the next chain is not adjacent).
+    HornerChain(u16, Vec<(u16, u16)>),
     /// exp_power_of_2(node, k)
     ExpPow2(u16, u8),
     /// mul_many / inner_product style helpers
@@ -216,6 +219,41 @@ impl<C: Fc> Built<C> {
     }
 }
 
+/// Number of distinct `Const`/`Public` expressions the connect class of `a` would contain
+/// if `a` and `b` were connected (uses the read-only `verif-hooks` view of the builder).
+pub fn creators_if_connected<C: Fc>(b: &CircuitBuilder<C::EF>, x: ExprId, y: ExprId) -> usize {
+    use p3_circuit::Expr;
+    let graph = b.verif_graph();
+    let mut parent: std::collections::HashMap<u32, u32> = std::collections::HashMap::new();
+    fn find(p: &mut std::collections::HashMap<u32, u32>, v: u32) -> u32 {
+        let mut r = v;
+        while let Some(&q) = p.get(&r) {
+            if q == r {
+                break;
+            }
+            r = q;
+        }
+        r
+    }
+    let mut members: Vec<u32> = vec![x.0, y.0];
+    for (a, c) in b.verif_pending_connects().iter().chain(std::iter::once(&(x, y))) {
+        members.push(a.0);
+        members.push(c.0);
+        let (ra, rc) = (find(&mut parent, a.0), find(&mut parent, c.0));
+        if ra != rc {
+            parent.insert(rc, ra);
+        }
+    }
+    let root = find(&mut parent, x.0);
+    members.sort_unstable();
+    members.dedup();
+    members
+        .into_iter()
+        .filter(|&m| find(&mut parent, m) == root)
+        .filter(|&m| matches!(graph.get_expr(ExprId(m)), Expr::Const(_) | Expr::Public(_)))
+        .count()
+}
+
 fn is_base<C: Fc>(x: &C::EF) -> bool {
     C::is_base(x)
 }
@@ -237,8 +275,53 @@ pub fn without_exclusions<R>(f: impl FnOnce() -> R) -> R {
     r
 }
 
+/// Which known-finding classes the interpreter avoids by construction.
+#[derive(Clone, Copy, Debug)]
+pub struct Excl {
+    /// ext-decomposition of a select whose selector is not a base-field value (C02 finding)
+    pub select_ext: bool,
+    /// a connect class with two Const/Public creators (C09/C10 finding)
+    pub two_creators: bool,
+    /// construction over rejection: skip statements whose asserted relation would be
+    /// violated by the generated inputs (or that divide by zero)
+    pub sat_only: bool,
+}
+
+impl Excl {
+    pub const NONE: Excl = Excl {
+        select_ext: false,
+        two_creators: false,
+        sat_only: false,
+    };
+    pub const ALL: Excl = Excl {
+        select_ext: true,
+        two_creators: true,
+        sat_only: false,
+    };
+    /// prover-level checks on satisfying programs
+    pub const ALL_SAT: Excl = Excl {
+        select_ext: true,
+        two_creators: true,
+        sat_only: true,
+    };
+    /// runner-level checks: two creators are harmless there
+    pub const RUNNER: Excl = Excl {
+        select_ext: true,
+        two_creators: false,
+        sat_only: false,
+    };
+}
+
 /// Interpret `prog` against a fresh builder and the reference semantics.
-pub fn interpret<C: Fc>(prog: &Prog) -> Built<C> {
+pub fn interpret<C: Fc>(prog: &Prog, excl: Excl) -> Built<C> {
+    let excl = if exclude_known() {
+        excl
+    } else {
+        Excl {
+            sat_only: excl.sat_only,
+            ..Excl::NONE
+        }
+    };
     let mut b = CircuitBuilder::<C::EF>::new();
     if prog.recompose_npo && C::D > 1 {
         b.enable_recompose::<C::BF>(generate_recompose_trace::<C::BF, C::EF>);
@@ -267,7 +350,7 @@ pub fn interpret<C: Fc>(prog: &Prog) -> Built<C> {
         deps: vec![],
     });
     for (si, st) in prog.stmts.iter().enumerate() {
-        step::<C>(&mut out, si, st);
+        step::<C>(&mut out, si, st, excl);
     }
     out
 }
@@ -284,7 +367,7 @@ fn push<C: Fc>(o: &mut Built<C>, expr: ExprId, val: C::EF, kind: NK, stmt: usize
     });
 }
 
-fn step<C: Fc>(o: &mut Built<C>, si: usize, st: &Stmt) {
+fn step<C: Fc>(o: &mut Built<C>, si: usize, st: &Stmt, excl: Excl) {
     let n = o.nodes.len();
     let ix = |i: &u16| pick(*i, n);
     o.cur_deps = stmt_operands(st).iter().map(|i| pick(*i, n)).collect();
@@ -325,6 +408,9 @@ fn step<C: Fc>(o: &mut Built<C>, si: usize, st: &Stmt) {
         }
         Stmt::Div(i, j) => {
             let (a, c) = (o.nodes[ix(i)].clone(), o.nodes[ix(j)].clone());
+            if excl.sat_only && c.val == C::EF::ZERO {
+                return;
+            }
             let e = o.builder.div(a.expr, c.expr);
             let (val, undef) = match c.val.try_inverse() {
                 Some(inv) => (a.val * inv, a.undefined || c.undefined),
@@ -378,6 +464,9 @@ fn step<C: Fc>(o: &mut Built<C>, si: usize, st: &Stmt) {
         }
         Stmt::AssertBool(i) => {
             let a = o.nodes[ix(i)].clone();
+            if excl.sat_only && !(a.val == C::EF::ZERO || a.val == C::EF::ONE) {
+                return;
+            }
             o.builder.assert_bool(a.expr);
             o.asserts.push(Assertion {
                 kind: "bool",
@@ -392,7 +481,7 @@ fn step<C: Fc>(o: &mut Built<C>, si: usize, st: &Stmt) {
                 o.nodes[ix(ti)].clone(),
                 o.nodes[ix(sidx)].clone(),
             );
-            if o.has_ext_decomp && !is_base::<C>(&bb.val) && exclude_known() {
+            if o.has_ext_decomp && !is_base::<C>(&bb.val) && excl.select_ext {
                 // known finding C02/...:select-with-extension-selector: coefficients of a
                 // select on a non-base selector are miscomputed; excluded by construction.
                 o.excluded.push("select-with-extension-selector");
@@ -411,6 +500,16 @@ fn step<C: Fc>(o: &mut Built<C>, si: usize, st: &Stmt) {
         }
         Stmt::AssertZero(i) => {
             let a = o.nodes[ix(i)].clone();
+            if excl.sat_only && a.val != C::EF::ZERO {
+                return;
+            }
+            if creators_if_connected::<C>(&o.builder, a.expr, ExprId::ZERO) >= 2 {
+                if excl.two_creators {
+                    o.excluded.push("two-creators");
+                    return;
+                }
+                o.features.insert("two-creators".into());
+            }
             o.builder.assert_zero(a.expr);
             o.asserts.push(Assertion {
                 kind: "zero",
@@ -422,6 +521,17 @@ fn step<C: Fc>(o: &mut Built<C>, si: usize, st: &Stmt) {
         }
         Stmt::Connect(i, j) => {
             let (a, c) = (o.nodes[ix(i)].clone(), o.nodes[ix(j)].clone());
+            if excl.sat_only && a.val != c.val {
+                return;
+            }
+            if creators_if_connected::<C>(&o.builder, a.expr, c.expr) >= 2 {
+                // known finding (C09/C10): two Const/Public creators in one connect class
+                if excl.two_creators {
+                    o.excluded.push("two-creators");
+                    return;
+                }
+                o.features.insert("two-creators".into());
+            }
             o.builder.connect(a.expr, c.expr);
             o.asserts.push(Assertion {
                 kind: "connect",
@@ -449,6 +559,16 @@ fn step<C: Fc>(o: &mut Built<C>, si: usize, st: &Stmt) {
                 }
                 CopyVia::Const => (o.builder.define_const(val), NK::Const),
             };
+            if a.expr != e && creators_if_connected::<C>(&o.builder, a.expr, e) >= 2 {
+                if excl.two_creators {
+                    // the new input/constant stays free; no connect is issued
+                    o.excluded.push("two-creators");
+                    o.cur_deps.clear();
+                    push(o, e, val, kind, si, false);
+                    return;
+                }
+                o.features.insert("two-creators".into());
+            }
             o.builder.connect(a.expr, e);
             o.asserts.push(Assertion {
                 kind: "copy",
@@ -463,8 +583,15 @@ fn step<C: Fc>(o: &mut Built<C>, si: usize, st: &Stmt) {
         }
         Stmt::Bits(i, nb) => {
             let a = o.nodes[ix(i)].clone();
-            let nb = *nb as usize;
+            let mut nb = *nb as usize;
             let fb = <C::BF as Field>::bits();
+            if excl.sat_only {
+                // use exactly as many bits as the value needs (at least the requested count)
+                let cs = C::coeffs(&a.val);
+                let top = (0..C::D).rev().find(|&l| cs[l] != 0).unwrap_or(0);
+                let need = top * fb + (64 - cs[top].leading_zeros() as usize);
+                nb = nb.max(need).max(1).min(fb * C::D);
+            }
             match o.builder.decompose_to_bits::<C::BF>(a.expr, nb) {
                 Ok(bits) => {
                     let cs = C::coeffs(&a.val);
@@ -537,6 +664,24 @@ fn step<C: Fc>(o: &mut Built<C>, si: usize, st: &Stmt) {
             push(o, e, C::ef(&cs), NK::Recomp, si, false);
             o.features.insert("ext-recomp".into());
         }
+        Stmt::HornerChain(alpha, terms) => {
+            let al = o.nodes[ix(alpha)].clone();
+            let mut acc_e = ExprId::ZERO;
+            let mut acc_v = C::EF::ZERO;
+            let mut undef = al.undefined;
+            for (zi, xi) in terms {
+                let (pz, px) = (o.nodes[ix(zi)].clone(), o.nodes[ix(xi)].clone());
+                acc_e = o.builder.horner_acc_step(acc_e, al.expr, pz.expr, px.expr);
+                acc_v = acc_v * al.val + pz.val - px.val;
+                undef |= pz.undefined || px.undefined;
+            }
+            // only the final value is handed out: intermediates stay private to the chain
+            push(o, acc_e, acc_v, NK::Horner, si, undef);
+            let e2 = o.builder.add(acc_e, al.expr);
+            push(o, e2, acc_v + al.val, NK::Add, si, undef);
+            o.features.insert("horner".into());
+            o.features.insert("horner-wellformed-chain".into());
+        }
         Stmt::ExpPow2(i, k) => {
             let a = o.nodes[ix(i)].clone();
             let k = (*k % 6) as usize;
@@ -588,6 +733,9 @@ pub fn stmt_operands(st: &Stmt) -> Vec<u16> {
         | Stmt::ExtDecomp(a)
         | Stmt::ExpPow2(a, _) => vec![*a],
         Stmt::ExtRecomp(_) => vec![],
+        Stmt::HornerChain(a, t) => std::iter::once(*a)
+            .chain(t.iter().flat_map(|(z, x)| [*z, *x]))
+            .collect(),
         Stmt::MulMany(v) => v.clone(),
         Stmt::InnerProduct(v) => v.iter().flat_map(|(a, b)| [*a, *b]).collect(),
     }
@@ -606,6 +754,8 @@ pub struct GenOpts {
     pub allow_hints: bool,
     pub allow_horner: bool,
     pub allow_private: bool,
+    /// weight of free-form `Horner` statements (arbitrary accumulators)
+    pub free_horner_weight: u32,
     pub fields: Vec<u8>,
 }
 
@@ -620,6 +770,7 @@ impl Default for GenOpts {
             allow_hints: true,
             allow_horner: true,
             allow_private: true,
+            free_horner_weight: 6,
             fields: vec![0, 1, 3, 4, 6],
         }
     }
@@ -705,7 +856,13 @@ pub fn stmt_strategy(o: &GenOpts) -> BoxedStrategy<Stmt> {
     }
     if o.allow_horner {
         alts.push((
-            6,
+            5,
+            (idx(), proptest::collection::vec((idx(), idx()), 1..7))
+                .prop_map(|(a, t)| Stmt::HornerChain(a, t))
+                .boxed(),
+        ));
+        alts.push((
+            o.free_horner_weight,
             (idx(), idx(), idx(), idx())
                 .prop_map(|(a, b, c, d)| Stmt::Horner(a, b, c, d))
                 .boxed(),
@@ -766,4 +923,82 @@ pub fn fmt_op<C: Fc>(op: &p3_circuit::Op<C::EF>) -> String {
             outputs.iter().map(|g| g.iter().map(|w| w.0).collect::<Vec<_>>()).collect::<Vec<_>>()
         ),
     }
+}
+
+/// Does every `HornerAcc` op of the compiled circuit follow the positional contract of the
+/// ALU table?  The table takes the accumulator of a Horner row from the previous ALU row:
+/// a maximal run of consecutive `HornerAcc` ops is one chain that starts from 0, and the
+/// outputs of all but the last step of a run are not placed on the witness bus.  A circuit
+/// in which a step's accumulator is anything else, or in which an intermediate output is
+/// referenced elsewhere, falls into the known finding "horner-positional-contract".
+pub fn horner_shape_ok<F: p3_field::Field>(circuit: &p3_circuit::Circuit<F>) -> bool {
+    use p3_circuit::{AluOpKind, Op};
+    let alu: Vec<&Op<F>> = circuit
+        .ops
+        .iter()
+        .filter(|op| matches!(op, Op::Alu { .. }))
+        .collect();
+    let zero_slots: std::collections::HashSet<u32> = circuit
+        .ops
+        .iter()
+        .filter_map(|op| match op {
+            Op::Const { out, val } if *val == F::ZERO => Some(out.0),
+            _ => None,
+        })
+        .collect();
+    // reference counts of every slot over all ops (any role)
+    let mut refs: std::collections::HashMap<u32, usize> = std::collections::HashMap::new();
+    for op in &circuit.ops {
+        match op {
+            Op::Const { out, .. } | Op::Public { out, .. } => *refs.entry(out.0).or_default() += 1,
+            Op::Alu { a, b, c, out, intermediate_out, .. } => {
+                for w in [Some(*a), Some(*b), *c, Some(*out), *intermediate_out].into_iter().flatten() {
+                    *refs.entry(w.0).or_default() += 1;
+                }
+            }
+            Op::Hint { inputs, outputs, .. } => {
+                for w in inputs.iter().chain(outputs) {
+                    *refs.entry(w.0).or_default() += 1;
+                }
+            }
+            Op::NonPrimitiveOpWithExecutor { inputs, outputs, .. } => {
+                for w in inputs.iter().flatten().chain(outputs.iter().flatten()) {
+                    *refs.entry(w.0).or_default() += 1;
+                }
+            }
+        }
+    }
+    for (i, op) in alu.iter().enumerate() {
+        let Op::Alu { kind: AluOpKind::HornerAcc, out, intermediate_out, .. } = op else {
+            continue;
+        };
+        let acc = intermediate_out.expect("HornerAcc carries its accumulator");
+        let prev = if i > 0 { Some(alu[i - 1]) } else { None };
+        match prev {
+            Some(Op::Alu { kind: AluOpKind::HornerAcc, out: prev_out, .. }) => {
+                if acc != *prev_out {
+                    return false;
+                }
+            }
+            _ => {
+                if !zero_slots.contains(&acc.0) {
+                    return false;
+                }
+            }
+        }
+        // intermediate output (a next Horner step follows): must be referenced exactly twice
+        // (its own `out` and the next step's accumulator)
+        if let Some(Op::Alu { kind: AluOpKind::HornerAcc, .. }) = alu.get(i + 1) {
+            if refs.get(&out.0).copied().unwrap_or(0) != 2 {
+                return false;
+            }
+            // and must not be exposed through the public mapping / connect classes
+            if circuit.public_rows.iter().any(|w| w == out)
+                || circuit.private_input_rows.iter().any(|w| w == out)
+            {
+                return false;
+            }
+        }
+    }
+    true
 }
